@@ -38,14 +38,16 @@ Escapes(name, abs, sentS) ==
   \/ NaiveLoc(name, abs, sentS, FALSE).reg = "out"
 
 (* ---- behaviours: the receiver processes a hostile list *)
-VARIABLES list,      \* sequence of entries [name, abs, t]
+VARIABLES list,      \* sequence of entries [name, abs, t, tslash]
           sendS,     \* the list starts with the symlink  s -> ../outside
           k,         \* entries processed
           touched,   \* outside locations an operation was applied to
           naive      \* outside locations a path-joining receiver would have touched
 vars == <<list, sendS, k, touched, naive>>
 
-Entries == [name : Names, abs : BOOLEAN, t : Types]
+(* tslash: the name is spelled with a TRAILING SLASH ("l/", "a/../l/"): to the operating system a request to  *)
+(* follow a final symlink - resolution through the root must refuse that as well                               *)
+Entries == [name : Names, abs : BOOLEAN, t : Types, tslash : BOOLEAN]
 Init == /\ sendS \in BOOLEAN
         /\ list \in [1..1 -> Entries]
         /\ k = 0 /\ touched = {} /\ naive = {}
@@ -53,8 +55,8 @@ Init == /\ sendS \in BOOLEAN
 Process ==
   /\ k < Len(list)
   /\ LET e == list[k + 1]
-         r == RootedLoc(e.name, e.abs, sendS, e.t = "dir")
-         n == NaiveLoc(e.name, e.abs, sendS, e.t = "dir")
+         r == RootedLoc(e.name, e.abs, sendS, e.t = "dir" \/ e.tslash)
+         n == NaiveLoc(e.name, e.abs, sendS, e.t = "dir" \/ e.tslash)
      IN /\ touched' = (IF r.reg = "out" THEN touched \cup {r} ELSE touched)
         /\ naive' = (IF n.reg = "out" THEN naive \cup {n} ELSE naive)
   /\ k' = k + 1 /\ UNCHANGED <<list, sendS>>
@@ -70,7 +72,7 @@ NameStr(name, abs) ==
   IN (IF abs THEN "/ABS/" ELSE "") \o F[Len(name)]
 OutFile == IOEnv.VERIF_OUT
 Emit == (k = 0) =>
-  CSVWrite("%1$s", <<ToJson([name |-> NameStr(list[1].name, list[1].abs), abs |-> list[1].abs, t |-> list[1].t, sends |-> sendS,
+  CSVWrite("%1$s", <<ToJson([name |-> NameStr(list[1].name, list[1].abs) \o (IF list[1].tslash THEN "/" ELSE ""), abs |-> list[1].abs, t |-> list[1].t, sends |-> sendS, tslash |-> list[1].tslash,
                              escapes |-> Escapes(list[1].name, list[1].abs, sendS)])>>, OutFile)
 GenNext == FALSE /\ UNCHANGED vars
 GenSpec == Init /\ [][GenNext]_vars
